@@ -11,14 +11,14 @@ import (
 // range over a channel) must contain a pacing operation.
 
 var pacingCalls = map[string]bool{
-	"time.Sleep":                    true,
-	"(*sync.WaitGroup).Wait":        true,
-	"(*sync.Cond).Wait":             true,
-	"(net.Listener).Accept":         true,
-	"(*time.Timer).Reset":           false,
-	"os/signal.Notify":              false,
-	"(*bufio.Scanner).Scan":         false,
-	"(*net/http.Client).Do":         false, // a failing request returns at once
+	"time.Sleep":                      true,
+	"(*sync.WaitGroup).Wait":          true,
+	"(*sync.Cond).Wait":               true,
+	"(net.Listener).Accept":           true,
+	"(*time.Timer).Reset":             false,
+	"os/signal.Notify":                false,
+	"(*bufio.Scanner).Scan":           false,
+	"(*net/http.Client).Do":           false, // a failing request returns at once
 	"(*encoding/json.Decoder).Decode": false,
 }
 
@@ -26,10 +26,10 @@ var pacingCalls = map[string]bool{
 // wait-index argument. A call paces the loop only if that argument is loop-carried and advanced
 // from the call's own index result (rule W3).
 var blockingQueries = map[string]int{
-	repoMod + "/cert.getCerts":              2,
-	repoMod + "/registry/consul.listKV":     2,
-	repoMod + "/registry/consul.getKV":      2,
-	repoMod + "/registry/consul.listKeys":   2,
+	repoMod + "/cert.getCerts":            2,
+	repoMod + "/registry/consul.listKV":   2,
+	repoMod + "/registry/consul.getKV":    2,
+	repoMod + "/registry/consul.listKeys": 2,
 }
 
 // extraPacing lets a property add repository-specific pacing operations (e.g. direct Consul queries).
